@@ -129,7 +129,7 @@ impl Prop for C06 {
             assumptions: &[
                 "`x op= e` must bind x to what the engine itself yields for `x op e` on a snapshot (engine as calculator); the model owns binding, order, None-yield, program value and cut-off",
                 "right-hand sides stay inside the domain where built-ins do not reach C04's numeric edges",
-                "non-name targets contain no observable handlers (the order between evaluating and rejecting such a target is not demanded)",
+                "non-name targets contain no observable handlers (the order between evaluating and rejecting such a target is not demanded); the target of a PLAIN `=` is never a name bound to a context function (whether `f = e` reads f is not demanded), the target of a compound form may be one (`f op= e` must bind f to f() op e)",
             ],
             fault_kinds: &["natural_err", "handler_err", "fresh_process"],
             probes: &[
